@@ -106,9 +106,12 @@ class Ctx:
             sw = swapped_arguments(self.prog, mi, fi.cls, fi.node)
             from .defined import mutable_defaults
             sw = list(sw) + mutable_defaults(fi.node)
+            from .defined import oneshot_params
+            sw = sw + oneshot_params(fi.node)
             chk.ob(f'{chk.pid}.arguments', qn, not sw, loc(fi, sw[0][0]) if sw else loc(fi, fi.node),
                    'arguments passed by name to a callee of the package sit in the positions of the parameters of the same name (no two swapped); '
-                   'no parameter defaults to a mutable object (it would be shared between calls, hands and instances)',
+                   'no parameter defaults to a mutable object (it would be shared between calls, hands and instances); a parameter that may be a '
+                   'one-shot iterator is materialised before it is read twice or in a loop',
                    got='; '.join(w for _, w in sw[:2]) if sw else '')
             if True:
                 kw = _known_writes().get(f'{fi.module}:{qn}')
